@@ -191,26 +191,39 @@ pub fn c24(spec: &RunSpec, out: &Outcome) -> Vec<Violation> {
         ));
         return vs;
     }
-    for (id, s) in &out.sent {
-        if Some(*id) == out.shutdown_id && !out.responses.contains_key(id) {
+    let unanswered: Vec<(&i32, &crate::run::SentReq)> =
+        out.sent.iter().filter(|(id, _)| !out.responses.contains_key(id)).collect();
+    let unanswered_valid = unanswered.iter().filter(|(_, s)| s.kind == "valid" || s.kind == "probe").count();
+    for (id, s) in unanswered {
+        if Some(*id) == out.shutdown_id {
             vs.push(v("C24:no-response:shutdown", format!("id {id}")));
             continue;
         }
-        if !out.responses.contains_key(id) {
-            let panic = if out.panics.len() == 1 {
-                let loc = out.panics[0].split(": ").next().unwrap_or("?");
-                let loc = loc.rsplit("crates/").next().unwrap_or(loc);
-                format!(":panic@{loc}")
-            } else if out.panics.is_empty() {
-                String::new()
-            } else {
-                ":panic".to_string()
-            };
-            vs.push(v(
-                format!("C24:no-response:{}:{}{}", s.kind, s.method, panic),
-                format!("id {id} sent at t={}ms never answered; panics: {:?}", s.t_ms, out.panics),
-            ));
-        }
+        // a panic location is attributed only when it is unambiguous: exactly one panic and
+        // exactly one unanswered well-formed request in the run
+        let class = match s.kind {
+            "malformed" => "C24:no-response:malformed-params".to_string(),
+            "unknown-method" => "C24:no-response:unknown-method".to_string(),
+            "handshake" => format!("C24:no-response:handshake:{}", s.method),
+            _ => {
+                let panic = if out.panics.len() == 1 && unanswered_valid == 1 {
+                    let loc = out.panics[0].split(": ").next().unwrap_or("?");
+                    let loc = loc.rsplit("crates/").next().unwrap_or(loc);
+                    let loc = loc.rsplit("registry/src/").next().unwrap_or(loc);
+                    let loc = loc.split_once('/').map(|(a, b)| if a.contains('-') && a.len() > 30 { b } else { loc }).unwrap_or(loc);
+                    format!(":panic@{loc}")
+                } else if out.panics.is_empty() {
+                    String::new()
+                } else {
+                    ":panic".to_string()
+                };
+                format!("C24:no-response:well-formed:{}{}", s.method, panic)
+            }
+        };
+        vs.push(v(
+            class,
+            format!("id {id} ({} {}) sent at t={}ms never answered; panics: {:?}", s.kind, s.method, s.t_ms, out.panics),
+        ));
     }
     vs
 }
@@ -238,7 +251,19 @@ pub fn c28(spec: &RunSpec, out: &Outcome) -> Vec<Violation> {
 pub fn judge(spec: &RunSpec, out: &Outcome) -> Vec<Violation> {
     let mut vs = match spec.prop.as_str() {
         "C27" => content_oracle("C27", spec, out),
-        "C29" => content_oracle("C29", spec, out),
+        "C29" => {
+            // the property speaks about a reload / reindex running concurrently: only scripts
+            // that contain a reload trigger are in its domain
+            let has_trigger = spec.script.iter().any(|s| {
+                matches!(
+                    s.action,
+                    crate::script::Action::ChangeConfig { .. }
+                        | crate::script::Action::EmmyrcWrite { .. }
+                        | crate::script::Action::Save { .. }
+                )
+            });
+            if has_trigger { content_oracle("C29", spec, out) } else { Vec::new() }
+        }
         "C24" => c24(spec, out),
         "C28" => c28(spec, out),
         "C30" => crate::c30::judge(spec, out),
